@@ -178,6 +178,7 @@ pub fn gen_for(prop: &str, seed: u64) -> Scenario {
             }
         }
     }
+    #[cfg(feature = "sim")]
     if prop == "C15" || (matches!(prop, "C01" | "C02" | "C03" | "C11" | "C12" | "C13") && rng.chance(1, 7)) {
         crate::afamily::asyncify(&mut sc, &mut rng);
         return sc;
@@ -794,6 +795,7 @@ pub fn explore(prop: &str, seed: u64, thorough: bool, st: &mut Stats) -> Vec<Rep
     st.seeds += 1;
     let mut found: Vec<Replay> = Vec::new();
     let mut rng = Rng::sub(seed, 2);
+    #[cfg(feature = "sim")]
     if sc.asyncd {
         explore_async(prop, seed, &sc, thorough, st, &mut rng, &mut found);
         return found;
@@ -862,6 +864,7 @@ pub fn explore(prop: &str, seed: u64, thorough: bool, st: &mut Stats) -> Vec<Rep
     found
 }
 
+#[cfg(feature = "sim")]
 fn explore_async(prop: &str, seed: u64, sc: &Scenario, thorough: bool, st: &mut Stats, rng: &mut Rng, found: &mut Vec<Replay>) {
     use crate::afamily::*;
     let mut b = build_async(sc);
@@ -925,6 +928,7 @@ pub struct EvalOut {
 /// Run exactly what a replay record describes (trace if present, else strategy + seed).
 pub fn eval_replay(r: &Replay) -> EvalOut {
     let sc: Scenario = serde_json::from_value(r.scenario.clone()).expect("scenario");
+    #[cfg(feature = "sim")]
     if sc.asyncd {
         let mut b = crate::afamily::build_async(&sc);
         let o = crate::afamily::eval_async_on(&mut b, &sc, &r.strategy, r.run_seed, r.trace.clone());
